@@ -168,7 +168,7 @@ func runC01(c *Ctx) {
 
 	// ---- R6 ------------------------------------------------------------------------------------
 	c.Rule("R8", "accessor agreement for the replication state (consumer pending changes, cross-chain validators, provider channel; provider pending packets and consumer validator set)", 10)
-	checkAccessorAgreement(c, "ck", "PendingChangesKey", "CrossChainValidatorKey", "ProviderChannelIDKey")
+	checkAccessorAgreement(c, "ck", "PendingChangesKey", "CrossChainValidatorKey", "ProviderChannelIDKey", "InitialValSetKey", "InitGenesisHeightKey", "PreCCVKey", "PrevStandaloneChainKey")
 	checkAccessorAgreement(c, "pk", "PendingVSCsKey", "ConsumerValidatorKey")
 	checkSetterValues(c, "ck", []string{"PendingChanges", "CCValidator", "ProviderChannel"})
 
